@@ -1,6 +1,7 @@
 """Per-property assembly: which units run, with which meta data."""
 import time
 
+import units_incrate
 import units_path
 import units_verus
 from core import finish
@@ -79,10 +80,13 @@ LAYOUT_FNS = ["bindgen/codegen/struct_layout.rs: align_to, StructLayoutTracker::
 
 
 def _replay(prop):
-    kr, vr = units_path.replay(prop), units_verus.replay(prop)
+    kr, ki, vr = units_path.replay(prop), units_incrate.replay(prop), units_verus.replay(prop)
 
     def f(ob):
-        return kr(ob) if ob.backend.startswith("kani") else vr(ob)
+        if ob.backend.startswith("kani"):
+            h = ob.extra.get("harness", "")
+            return ki(ob) if "verif_kani" in h else kr(ob)
+        return vr(ob)
     return f
 
 
@@ -156,4 +160,71 @@ def c12(tier, seed):
         ]}, extra_obs=_from_str_witnesses)
 
 
-PROPS = {"C02": c02, "C03": c03, "C10": c10, "C12": c12, "C14": c14}
+INCRATE_TRUST = ["in-crate harness modules pulled in by cfg(kani) hook lines; TypeId built by transmute::<usize,TypeId> (two single-field newtypes)"]
+
+
+def c04(tier, seed):
+    def extra():
+        return units_incrate.run_spec(units_incrate.abi_spec())
+    return _verus_prop("C04", tier, seed, [], {
+        "trusted_base": INCRATE_TRUST + ["calling-convention oracle: clang-c/Index.h CXCallingConv values x Rust reference ABI strings (kani_incrate/function_abi.rs)"],
+        "functions_under_contract": ["bindgen/ir/function.rs: get_abi"],
+        "assumptions": ["complete: every u32 CXCallingConv value (loop-free, full domain)",
+                        "only the calling-convention table of C04 is decided"],
+        "unverified": ["cursor_mangling / mangled names from libclang; link_name omission (utils::names_will_be_identical_after_mangling: string code, not under contract); argument lowering (fnsig_*); Method::codegen_method; ABI classification by rustc/LLVM vs clang"],
+    }, extra_obs=extra)
+
+
+def c05(tier, seed):
+    return _verus_prop("C05", tier, seed, [("macro_type", None, None)], {
+        "trusted_base": ["extraction rules R1-R11; env/macro_type_env.rs: uninterpreted option reads; assume_specification for i64::from(u8|u16|u32) (lossless widening)",
+                         "C-model table kind_bits/kind_signed written from the kinds' names (contracts/macro_type.py)"],
+        "functions_under_contract": ["bindgen/ir/var.rs: default_macro_constant_type", "bindgen/ir/int.rs: IntKind::is_signed, IntKind::known_size"],
+        "assumptions": ["all i64 macro values, both option reads uninterpreted: the chosen kind holds the value, has the sign the property demands, is the narrowest such kind under fit-macro-constant-types and 32/64 bit otherwise"],
+        "unverified": ["cexpr macro evaluation, libclang EvalResult, clang-macro-fallback; signed/unsigned literal branch in Var::codegen; Enum::codegen repr translation and EnumBuilder; proc_macro2::Literal printing"],
+    })
+
+
+def c07(tier, seed):
+    def extra():
+        o1, c1 = units_incrate.run_spec(units_incrate.lattice_spec() + units_incrate.subscriptions_spec())
+        return o1, c1
+    return _verus_prop("C07", tier, seed, [("edges", r"consider_edge", None)], {
+        "trusted_base": INCRATE_TRUST + ["read-sets of each analysis' constrain (contracts/edges.py, hand-derived from the constrain bodies and the Trace impls)",
+                                        "declared lattice orders taken from the enums' doc comments"],
+        "functions_under_contract": ["bindgen/ir/derive.rs: CanDerive::join, BitOr, BitOrAssign", "bindgen/ir/analysis/has_vtable.rs: HasVtableResult::join(+ops), HasVtableAnalysis::consider_edge",
+                                     "bindgen/ir/analysis/sizedness.rs: SizednessResult::join(+ops), SizednessAnalysis::consider_edge",
+                                     "bindgen/ir/analysis/{has_destructor,has_float,has_type_param_in_array}.rs: consider_edge",
+                                     "bindgen/ir/analysis/derive.rs: consider_edge_default, DeriveTrait::consider_edge_comp/_typeref/_tmpl_inst"],
+        "assumptions": ["necessary conditions of the least-fixed-point property only: (i) joins are least upper bounds of the declared orders, (ii) every edge kind a rule reads along is in the analysis' subscription predicate",
+                        "the worklist driver analysis::analyze and the constrain bodies are NOT under contract (closures capturing &mut / live IR)"],
+        "unverified": ["MonotoneFramework::constrain bodies on real IR; analysis::analyze; generate_dependencies; Trace impls; completeness of the read-sets; termination; the declaration-order corollary"],
+    }, extra_obs=extra)
+
+
+def c08(tier, seed):
+    def extra():
+        return units_incrate.run_spec(units_incrate.derive_tables_spec())
+    return _verus_prop("C08", tier, seed, [("derive_gate", None, None)], {
+        "trusted_base": INCRATE_TRUST + ["env/derive_gate_env.rs: uninterpreted options and analysis lookups; generic impl<T> instantiated at T = ItemId",
+                                        "rule-table oracle written from the property statement (kani_incrate/derive_tables.rs)"],
+        "functions_under_contract": ["bindgen/ir/context.rs: the eight impl<T> CanDerive{Debug,Default,Copy,Hash,PartialOrd,PartialEq,Eq,Ord} for T bodies",
+                                     "bindgen/ir/analysis/derive.rs: DeriveTrait::can_derive_{simple,pointer,vector,union,compound_with_destructor,compound_with_vtable,compound_forward_decl,incomplete_array}; can_derive_fnptr (bounded)",
+                                     "bindgen/ir/function.rs: FunctionSig::function_pointers_can_derive (bounded)"],
+        "assumptions": ["gating: result == option enabled && analysis lookup (&& no float for Eq/Ord), both directions ('never when', 'never withheld')",
+                        "rule tables complete over all 5 traits x every TypeKind constructible without libclang (17 kinds); UnresolvedTypeRef, Comp, Function, TemplateInstantiation, ObjCInterface kinds are not constructible and are skipped"],
+        "bounds": "fn-pointer rule: argument counts 0, 12, 13 (around the 12-argument limit) x all ABIs x all traits",
+        "unverified": ["CannotDerive::constrain_type / constrain_join on real IR; derives_of_item (packed-requires-Copy); hand-written impl bodies (impl_debug.rs, impl_partialeq.rs, Default via write_bytes)"],
+    }, extra_obs=extra)
+
+
+def c09(tier, seed):
+    return _verus_prop("C09", tier, seed, [("edges", r"::(all_edges|only_inner_type_edges|codegen_edges)::", None)], {
+        "trusted_base": ["extraction rules R1-R11; env/edges_env.rs: uninterpreted CodegenConfig reads and Item::is_enabled_for_codegen; is_type_edge table from the Trace impls"],
+        "functions_under_contract": ["bindgen/ir/traversal.rs: codegen_edges, only_inner_type_edges, all_edges"],
+        "assumptions": ["per-edge decision only: every edge kind whose target is a type is followed iff types are generated; vars/methods/constructors/destructors likewise; no-recursive mode follows exactly InnerType"],
+        "unverified": ["root selection by regex sets (compute_allowlisted_and_codegen_items), ItemTraversal over the real graph, every Trace impl, regex anchoring ^(..)$ in regex_set.rs, textual identity with the un-allowlisted run: closure/minimality are not decided"],
+    })
+
+
+PROPS = {"C02": c02, "C04": c04, "C05": c05, "C07": c07, "C08": c08, "C09": c09, "C03": c03, "C10": c10, "C12": c12, "C14": c14}
